@@ -22,8 +22,9 @@ import (
 type FStep struct {
 	cfgsm.Step
 	Restart     bool     `json:"restart,omitempty"`      // the controller restarts first: new Instance over the same directories, full sync
-	Faults      []string `json:"faults,omitempty"`       // file classes, "reload-request", "reload-result"
+	Faults      []string `json:"faults,omitempty"`       // file classes, "reload-request", "reload-result", "reload-reset", "reload-eof[-ok]", "reload-garbage[-ok]"
 	QueueFaults int      `json:"queue_faults,omitempty"` // queue mode: number of failing reloads before the queue's reload succeeds
+	QueueKind   string   `json:"queue_kind,omitempty"`   // how they fail: "" = reload result, "reset" = connection reset while sending reload
 }
 
 // History is the replayable input.
@@ -66,7 +67,8 @@ func classes(shards int, inline bool) []string {
 		c = append(c, fmt.Sprintf("shard:%d", j))
 	}
 	if inline {
-		c = append(c, "reload-request", "reload-result")
+		// reload-eof / reload-garbage (the master drops the command silently) are not drawn: see corpus()
+		c = append(c, "reload-request", "reload-result", "reload-reset", "reload-reset", "reload-eof-ok", "reload-garbage-ok")
 	}
 	return c
 }
@@ -94,6 +96,9 @@ func gen(rng *rand.Rand, wide bool) History {
 		}
 		if !h.Inline && rng.Intn(4) == 0 {
 			fs.QueueFaults = 1 + rng.Intn(2)
+			if rng.Intn(2) == 0 {
+				fs.QueueKind = "reset"
+			}
 		}
 		h.Steps = append(h.Steps, fs)
 		if len(fs.Faults) > 0 {
@@ -156,6 +161,30 @@ func corpus() []History {
 		r0.Restart = true
 		out = append(out, History{Shards: 8, Inline: inline, Steps: []FStep{fst(true, h01, b01, nil), r0}})
 	}
+	// the connection carrying `reload` is reset by the master, which does not reload and keeps
+	// answering `show proc` with its old worker: once, twice in a row, then the retry; inline and queue
+	for _, n := range []int{1, 2} {
+		steps := []FStep{fst(true, h0, b0, nil)}
+		for k := 0; k < n; k++ {
+			steps = append(steps, fst(false, h01, b01, nil, "reload-reset"))
+		}
+		steps = append(steps, fst(false, h01, b01, nil))
+		out = append(out, History{Shards: 3, Inline: true, Steps: steps})
+		qr := fst(false, h01, b01, nil)
+		qr.QueueFaults, qr.QueueKind = n, "reset"
+		out = append(out, History{Shards: 3, Inline: false, Steps: []FStep{fst(true, h0, b0, nil), qr, fst(false, h0, b0, nil)}})
+	}
+	// unusual answers of a master that does reload: no answer at all (it re-executes itself), garbage
+	for _, c := range []string{"reload-eof-ok", "reload-garbage-ok"} {
+		out = append(out, History{Shards: 3, Inline: true, Steps: []FStep{fst(true, h0, b0, nil), fst(false, h01, b01, nil, c), fst(false, h01, b01, nil)}})
+	}
+	if silentReload {
+		// the master drops `reload` without any sign (no answer / garbage, no reload, `show proc` healthy):
+		// the real code reports success (C12/silent-reload-drop-undetected, C12_silent_reload_drop_refuted)
+		for _, c := range []string{"reload-eof", "reload-garbage"} {
+			out = append(out, History{Shards: 3, Inline: true, Steps: []FStep{fst(true, h0, b0, nil), fst(false, h01, b01, nil, c), fst(false, h01, b01, nil)}})
+		}
+	}
 	// reload through the queue fails twice, the queue retries
 	q := fst(false, h01, b01, nil)
 	q.QueueFaults = 2
@@ -199,6 +228,7 @@ func runHistory(base string, h History) runResult {
 	}
 	pendingFault := "" // first fault of a failed update not yet followed by a successful one
 	restarted := false
+	lostReload := ""
 	newInst := true // the instance has not written a configuration yet
 	up := false     // the instance has reloaded haproxy at least once
 	for i, st := range h.Steps {
@@ -232,12 +262,17 @@ func runHistory(base string, h History) runResult {
 		ops := e.Sync(st.Step)
 		var fileClasses []string
 		reqFail, resFail := false, false
+		mode := ""
 		for _, f := range st.Faults {
 			switch f {
 			case "reload-request":
 				reqFail = true
 			case "reload-result":
 				resFail = true
+			case "reload-reset", "reload-eof", "reload-garbage", "reload-eof-ok", "reload-garbage-ok":
+				if mode == "" || f == "reload-reset" {
+					mode = strings.TrimPrefix(f, "reload-")
+				}
 			default:
 				fileClasses = append(fileClasses, f)
 			}
@@ -247,6 +282,9 @@ func runHistory(base string, h History) runResult {
 			master.Close()
 		}
 		master.FailResult(resFail && h.Inline)
+		if h.Inline {
+			master.ReloadMode(mode)
+		}
 		q := 0
 		if e.Queue != nil {
 			q = e.Queue.Adds
@@ -257,6 +295,7 @@ func runHistory(base string, h History) runResult {
 		unblock()
 		master.Listen()
 		master.FailResult(false)
+		master.ReloadMode("")
 		o := stepObs{Ops: ops, Written: e.Written()}
 		if err != nil {
 			o.Err = err.Error()
@@ -272,9 +311,16 @@ func runHistory(base string, h History) runResult {
 			// what services.reloadHAProxy does when the queue fires: Reload, and on error add itself again
 			for try := 0; try < 10; try++ {
 				o.QueueTries++
-				master.FailResult(try < st.QueueFaults)
+				if st.QueueKind == "reset" {
+					if try < st.QueueFaults {
+						master.ReloadMode("reset")
+					}
+				} else {
+					master.FailResult(try < st.QueueFaults)
+				}
 				rerr := e.Inst.Reload(e.Timer)
 				master.FailResult(false)
+				master.ReloadMode("")
 				if rerr == nil {
 					break
 				}
@@ -321,10 +367,25 @@ func runHistory(base string, h History) runResult {
 		if o.Disk.Canon() != fresh {
 			fail(key, where+": after the failed update(s) [first fault "+pendingFault+"] this update succeeded but the files differ from those of a fresh instance: "+firstDiff(o.Disk.Canon(), fresh))
 		} else if running != fresh {
-			if e.Queue != nil && !o.ReloadAsked && pendingFault == "" {
-				// nothing to reload and nothing lost: running instance already had it
+			// a reload that did not happen and was not reported: name its shape
+			if lostReload == "" {
+				switch {
+				case mode == "reset" || (st.QueueKind == "reset" && st.QueueFaults > 0 && o.ReloadAsked):
+					lostReload = "reload-reset-not-reported"
+				case mode == "eof" || mode == "garbage":
+					lostReload = "silent-reload-drop-undetected"
+				}
 			}
-			fail(map[bool]string{true: key, false: "running-differs"}[pendingFault != ""], where+": update succeeded but the running haproxy did not load the current files: "+firstDiff(running, fresh))
+			switch {
+			case lostReload != "":
+				fail(lostReload, where+": the connection carrying `reload` was "+map[string]string{"reload-reset-not-reported": "reset by the master", "silent-reload-drop-undetected": "closed / answered with garbage by the master"}[lostReload]+", haproxy did not reload and `show proc` shows the old worker, yet the update (reload) reported success and nothing is retried: the running haproxy never loads the files: "+firstDiff(running, fresh))
+			case pendingFault != "":
+				fail(key, where+": update succeeded but the running haproxy did not load the current files: "+firstDiff(running, fresh))
+			default:
+				fail("running-differs", where+": update succeeded but the running haproxy did not load the current files: "+firstDiff(running, fresh))
+			}
+		} else {
+			lostReload = ""
 		}
 		pendingFault = ""
 	}
@@ -376,10 +437,15 @@ func firstDiff(a, b string) string {
 	return ""
 }
 
+// silentReload adds to the corpus the two histories where the master drops `reload` silently
+// (VERIF_C12_SILENT_RELOAD=1): a fault no signal of which reaches the controller; the real code
+// then reports success while haproxy never reloads. Off by default, see the report / props/C12.json.
+var silentReload = os.Getenv("VERIF_C12_SILENT_RELOAD") == "1"
+
 func main() {
 	o := hx.Parse()
 	rng := o.Rng()
-	res := hx.NewResult("C12", "histories of 3..8 (search: ..14) syncs + updates on the real Instance (shards 0/1/3/8, inline reload through a fake master socket or reload queue), about a third of the updates with one or two armed faults out of {tcp maps, 4 frontend map files, backend maps, tcp crt-lists, main cfg, each shard file, reload request, reload result}, each followed by the reconciler's retry; non-trivial = at least one armed fault made an update fail; distinct by canonical JSON")
+	res := hx.NewResult("C12", "histories of 3..8 (search: ..14) syncs + updates on the real Instance (shards 0/1/3/8, inline reload through a fake master socket or reload queue), about a third of the updates with one or two armed faults out of {tcp maps, 4 frontend map files, backend maps, tcp crt-lists, main cfg, each shard file, reload request, reload result, reload connection reset by the master (inline and through the queue), reload answered by EOF / garbage by a master that does reload}, each followed by the reconciler's retry; non-trivial = at least one armed fault made an update fail; distinct by canonical JSON")
 	base, _ := filepath.Abs(filepath.Join(o.Out, "scratch"))
 	var inputs []History
 	if o.Replay != "" {
